@@ -72,7 +72,9 @@ int vp_case(Choice& c, Report& rep) {
         s.op = c.weighted(OW, 13);
         switch (s.op) {
           case OP_BITRATE:
-            s.a = c.chance(16) ? (opus_int32)c.irange(-3, 499) : cu::gen_bitrate(c, ch);
+            if (c.chance(16)) s.a = (opus_int32)c.irange(-3, 499);
+            else if (c.chance(24)) { static const int E[6] = {0, 1, -1, 2, -2, 1000}; s.a = (c.boolean() ? 300000 * ch : 500) + c.pick(E); }   // clamp edges
+            else s.a = cu::gen_bitrate(c, ch);
             c05::model_set_bitrate(s.a, ch, b);
             break;
           case OP_VBRMODE: s.a = c.irange(0, 2); vbr = s.a != 1; break;   // 0 cvbr, 1 cbr, 2 vbr
